@@ -499,6 +499,12 @@ void cstl_hash_clear(struct cstl_hash * const h, cstl_xtor_func_t * const clr)
     h->bucket.count = 0;
     h->bucket.capacity = 0;
 
+    /*
+     * as after cstl_hash_init(): with no hash function set, the
+     * next resize is the "first" one and takes effect immediately
+     * instead of starting a rehash from a table with no buckets
+     */
+    h->bucket.hash = NULL;
     h->bucket.rh.hash = NULL;
 
     h->count = 0;
